@@ -10,6 +10,8 @@ with each error kind, for every k".
 import FontVerif.Model.PatchRound
 import FontVerif.Lemmas.Ift
 import FontVerif.Lemmas.IftGlyph
+import FontVerif.Lemmas.IftOrder
+import FontVerif.Lemmas.IftErrors
 set_option linter.unusedVariables false
 namespace FontVerif.C18
 open FontVerif FontVerif.Ift
@@ -327,5 +329,167 @@ theorem applied_bits_exact (infos : List PatchInfo) (gps : List GlyphPatches) (f
     simp only [if_true]
     have := key _ _ _ m2
     rw [h2]; exact this
+
+/-! ## order and grouping independence
+
+`Agree tag gps` (Lemmas/IftOrder.lean): any two patches of the list that both carry data for a gid
+(for table `tag`) carry the SAME data for it.  A patch = (its `PatchInfo`, its decoded `GlyphPatches`). -/
+
+/-- **glyph_keyed_order_independent.**  For patches that agree on shared gids, applying ANY
+permutation of the patch list succeeds iff the original order does, with identical tables (the whole
+table directory, mapping tables with their applied bits included). -/
+theorem glyph_keyed_order_independent (ps ps' : List (PatchInfo × GlyphPatches)) (font out : Font)
+    (hperm : ps.Perm ps') (hagree : Agree TAG_glyf (ps.map (·.2)))
+    (h : applyGlyphPatches (ps.map (·.1)) (ps.map (·.2)) font = .ok out) :
+    applyGlyphPatches (ps'.map (·.1)) (ps'.map (·.2)) font = .ok out :=
+  applyGlyphPatches_perm ps ps' font out hperm hagree h
+
+/-- **glyph_keyed_grouping_independent.**  Sequential partition: applying the patches `ps1`, then
+applying `ps2` to the resulting font, gives exactly the tables that applying `ps1 ++ ps2` in one call
+gives (whenever the three applications succeed; patches agree on shared gids).  Together with
+`glyph_keyed_order_independent` this covers every permutation and every two-way grouping; longer
+groupings follow by iterating. -/
+theorem glyph_keyed_grouping_independent (ps1 ps2 : List (PatchInfo × GlyphPatches))
+    (font font1 out2 out12 : Font) (hu : UniqueTags font)
+    (hagree : Agree TAG_glyf ((ps1 ++ ps2).map (·.2)))
+    (h1 : applyGlyphPatches (ps1.map (·.1)) (ps1.map (·.2)) font = .ok font1)
+    (h2 : applyGlyphPatches (ps2.map (·.1)) (ps2.map (·.2)) font1 = .ok out2)
+    (h12 : applyGlyphPatches ((ps1 ++ ps2).map (·.1)) ((ps1 ++ ps2).map (·.2)) font = .ok out12) :
+    out2 = out12 :=
+  applyGlyphPatches_split ps1 ps2 font font1 out2 out12 hu hagree h1 h2 h12
+
+/-- non-vacuity (and necessity of `Agree`): two AGREEING patches in both orders and split give the
+same font -/
+example :
+    let font : Font := [(TAG_IFT, [2,0,0,0,0, 1,1,1,1,1,1,1,1,1,1,1,1,1,1,1,1, 0]), (TAG_glyf, [1,2,3,4]),
+      (TAG_head, List.replicate 54 0), (TAG_loca, [0,0, 0,1, 0,2]), (TAG_maxp, [0,0,0x50,0, 0,2])]
+    let gp0 : GlyphPatches := { glyphCount := 1, tables := [TAG_glyf], gids := [1], offsets := [3, 6], raw := [9,9,9,7,7,7] }
+    let gp1 : GlyphPatches := { glyphCount := 2, tables := [TAG_glyf], gids := [0, 1], offsets := [1, 2, 5], raw := [9,5,7,7,7] }
+    let i0 : PatchInfo := { uri := "a", iftx := false, compat := [], bit := 170 }
+    let i1 : PatchInfo := { uri := "b", iftx := false, compat := [], bit := 3 }
+    applyGlyphPatches [i0, i1] [gp0, gp1] font = applyGlyphPatches [i1, i0] [gp1, gp0] font ∧
+    (match applyGlyphPatches [i1] [gp1] font with
+     | .ok f1 => applyGlyphPatches [i0] [gp0] f1
+     | .error e => .error e) = applyGlyphPatches [i0, i1] [gp0, gp1] font ∧
+    (applyGlyphPatches [i0, i1] [gp0, gp1] font).toBool = true := by
+  refine ⟨by rfl, by rfl, by rfl⟩
+
+/-! ## error paths (an error carries no output: `Except`, so "not partial output" holds by type) -/
+
+/-- **gid_beyond_maxp_is_error.**  If any patch carries glyf data for a gid ≥ maxp.numGlyphs, the
+application fails, whatever else the patches contain. -/
+theorem gid_beyond_maxp_is_error (infos : List PatchInfo) (gps : List GlyphPatches) (font : Font)
+    (hu : UniqueTags font) (g : Nat) (d : Bytes)
+    (hl : firstWins TAG_glyf gps g = some d) (hg : numGlyphs font ≤ g) :
+    ∃ e, applyGlyphPatches infos gps font = .error e := by
+  cases h : applyGlyphPatches infos gps font with
+  | error e => exact ⟨e, rfl⟩
+  | ok out =>
+    exfalso
+    have hglyf : ∃ gp ∈ gps, TAG_glyf ∈ gp.tables := by
+      apply Classical.byContradiction
+      intro hno
+      rw [firstWins_none_of_no_tag TAG_glyf gps hno g] at hl
+      cases hl
+    obtain ⟨_, _, _, _, _, _, _, _, _, hlt, _⟩ := glyph_keyed_splice_spec infos gps font out hu h hglyf
+    have := hlt g d hl
+    omega
+
+/-- **unsorted_gids_is_error.**  If a patch (as parsed by `GlyphPatches::read`) that names `glyf`
+has glyph ids that are not strictly ascending (unsorted or duplicated), the application fails. -/
+theorem unsorted_gids_is_error (infos : List PatchInfo) (gps : List GlyphPatches) (font : Font)
+    (raw : Bytes) (wide : Bool) (gp : GlyphPatches) (hr : gpRead raw wide = .ok gp)
+    (hmem : gp ∈ gps) (hglyf : TAG_glyf ∈ gp.tables) (hbad : ¬ gp.gids.Pairwise (· < ·)) :
+    ∃ e, applyGlyphPatches infos gps font = .error e := by
+  cases h : applyGlyphPatches infos gps font with
+  | error e => exact ⟨e, rfl⟩
+  | ok out =>
+    exfalso
+    obtain ⟨repl, hd⟩ := apply_ok_dedup infos gps font out h gp hmem hglyf
+    obtain ⟨ti, hti⟩ := indexOfTag_some_of_mem TAG_glyf gp.tables 0 hglyf
+    obtain ⟨hpw, _⟩ := dedup_items_ok TAG_glyf gps repl hd gp hmem ti hti
+    obtain ⟨_, hm, _⟩ := tableItems_spec raw wide gp hr ti (by have := indexOfTag_lt _ _ _ _ hti; omega)
+    apply hbad
+    rw [← hm, List.pairwise_map]
+    exact hpw
+
+/-- **glyph_offset_out_of_bounds_is_error.**  If for some glyph `j` of a patch naming `glyf` (table
+index `ti`) the data offsets `(s, e)` are null, descending or beyond the decoded payload, the
+application fails. -/
+theorem glyph_offset_out_of_bounds_is_error (infos : List PatchInfo) (gps : List GlyphPatches)
+    (font : Font) (raw : Bytes) (wide : Bool) (gp : GlyphPatches) (hr : gpRead raw wide = .ok gp)
+    (hmem : gp ∈ gps) (ti : Nat) (hti : indexOfTag TAG_glyf gp.tables 0 = some ti)
+    (j : Nat) (hj : j < gp.glyphCount)
+    (hbad : gp.offsets.getD (ti * gp.glyphCount + j) 0 = 0 ∨
+            gp.offsets.getD (ti * gp.glyphCount + j + 1) 0 < gp.offsets.getD (ti * gp.glyphCount + j) 0 ∨
+            raw.length < gp.offsets.getD (ti * gp.glyphCount + j + 1) 0) :
+    ∃ e, applyGlyphPatches infos gps font = .error e := by
+  cases h : applyGlyphPatches infos gps font with
+  | error e => exact ⟨e, rfl⟩
+  | ok out =>
+    exfalso
+    have hlt := indexOfTag_lt _ _ _ _ hti
+    have hglyf : TAG_glyf ∈ gp.tables := by
+      apply Classical.byContradiction
+      intro hn; rw [indexOfTag_none _ _ _ hn] at hti; cases hti
+    obtain ⟨repl, hd⟩ := apply_ok_dedup infos gps font out h gp hmem hglyf
+    obtain ⟨_, hb⟩ := dedup_items_ok TAG_glyf gps repl hd gp hmem ti hti
+    obtain ⟨hlen, _, hidx⟩ := tableItems_spec raw wide gp hr ti (by omega)
+    obtain ⟨_, _, hraw⟩ := gpRead_lengths raw wide gp hr
+    have hj' : j < (tableItems gp ti).length := by rw [hlen]; exact hj
+    obtain ⟨e1, e2⟩ := hidx j hj'
+    have := hb _ (List.getElem_mem hj')
+    rw [e1, e2, hraw] at this
+    omega
+
+/-- **every_patch_compat_checked.**  `apply_glyph_keyed_patches` checks the compatibility id of
+EVERY patch of the group, not only the first one under a mapping table: if ANY patch in the list (at
+any position) was selected under a mapping-table id that differs from the font's current id for
+that table, or carries a different id in its own header, the result is an error, and the SAME error
+for every decoder — the decoder is never consulted. -/
+theorem every_patch_compat_checked (patches : List (PatchInfo × Bytes)) (font : Font)
+    (info : PatchInfo) (p : Bytes) (hmem : (info, p) ∈ patches) (id : Bytes)
+    (hid : fontCompatId font info.tag = .ok id)
+    (hm : id ≠ info.compat ∨ ∃ hd, gkRead p = .ok hd ∧ hd.compat ≠ id) :
+    ∃ e, ∀ dec : Decoder, applyGlyphKeyed patches font dec = .error e := by
+  cases hc : checkGlyphKeyed font patches with
+  | error e => exact ⟨e, fun dec => by simp [applyGlyphKeyed, hc]⟩
+  | ok hs =>
+    exfalso
+    obtain ⟨_, hall⟩ := checkGlyphKeyed_all font patches hs hc
+    obtain ⟨c1, hd, c2, c3, _⟩ := hall (info, p) hmem
+    simp only at c1 c2 c3
+    rw [hid] at c1
+    simp only [Except.ok.injEq] at c1
+    rcases hm with hm | ⟨hd', g1, g2⟩
+    · exact hm c1
+    · rw [c2] at g1
+      simp only [Except.ok.injEq] at g1
+      subst g1
+      exact g2 (by rw [c3, c1])
+
+/-- a missing mapping table for ANY patch of the group is an error before anything is decoded -/
+theorem glyph_keyed_missing_mapping_table_is_error (patches : List (PatchInfo × Bytes)) (font : Font)
+    (info : PatchInfo) (p : Bytes) (hmem : (info, p) ∈ patches) (h : font.get info.tag = none) :
+    ∃ e, ∀ dec : Decoder, applyGlyphKeyed patches font dec = .error e := by
+  cases hc : checkGlyphKeyed font patches with
+  | error e => exact ⟨e, fun dec => by simp [applyGlyphKeyed, hc]⟩
+  | ok hs =>
+    exfalso
+    obtain ⟨_, hall⟩ := checkGlyphKeyed_all font patches hs hc
+    obtain ⟨c1, _⟩ := hall (info, p) hmem
+    simp only [fontCompatId, h] at c1
+    cases c1
+
+/-- non-vacuity of `every_patch_compat_checked`: the SECOND patch of a group carries a foreign id -/
+example :
+    let font : Font := [(TAG_IFT, [2,0,0,0,0, 1,1,1,1,1,1,1,1,1,1,1,1,1,1,1,1, 0])]
+    let good : Bytes := [0x69,0x66,0x67,0x6b, 0,0,0,0, 0, 1,1,1,1,1,1,1,1,1,1,1,1,1,1,1,1, 0,0,0,9]
+    let bad : Bytes := [0x69,0x66,0x67,0x6b, 0,0,0,0, 0, 1,1,1,1,1,1,1,1,1,1,1,1,1,1,1,2, 0,0,0,9]
+    let i : PatchInfo := { uri := "a", iftx := false, compat := [1,1,1,1,1,1,1,1,1,1,1,1,1,1,1,1], bit := 0 }
+    checkGlyphKeyed font [(i, good), (i, bad)] = .error .incompatiblePatch ∧
+    checkGlyphKeyed font [(i, bad), (i, good)] = .error .incompatiblePatch ∧
+    (checkGlyphKeyed font [(i, good), (i, good)]).toBool = true := by
+  refine ⟨by rfl, by rfl, by rfl⟩
 
 end FontVerif.C18
